@@ -436,3 +436,17 @@ func (f *Flow) caseTags() map[ast.Expr]ast.Expr {
 	})
 	return f.tags
 }
+
+func edgeList(m map[Edge]bool) []Edge {
+	var out []Edge
+	for e := range m {
+		out = append(out, e)
+	}
+	sort.Slice(out, func(i, j int) bool {
+		if out[i].From.Index != out[j].From.Index {
+			return out[i].From.Index < out[j].From.Index
+		}
+		return out[i].Succ < out[j].Succ
+	})
+	return out
+}
